@@ -63,7 +63,7 @@ def actorOf : Op → Nat
 pair address is neither an existing pair nor an existing token contract; the new token address is not an
 existing token contract) -/
 def FreshOK (w : World) (op : Op) : Prop :=
-  ∀ s f a0 a1 req c np nl, op = .factory s f (.createPair a0 a1 req c np nl) →
+  ∀ s f a0 a1 req c ld np nl, op = .factory s f (.createPair a0 a1 req c ld np nl) →
     w.pair np = none ∧ w.tok nl = none ∧ w.tok np = none
 
 /-- sum of the balances of an asset over a list of accounts -/
